@@ -67,3 +67,16 @@ PROPS["C14"] = dict(
     outside="Poseidon2, SIS (not built yet); constants derivation; messages longer than 2 blocks",
     assumptions=["felt summaries of fr.Element operations", "hash registry not exercised"],
 )
+
+PROPS["C15"] = dict(
+    jobs=[Job("fiat-shamir", ["common/vhash.go.tmpl", "C15/transcript.go.tmpl"]),
+          Job("fiat-shamir", ["common/vhash.go.tmpl", "C15/transcript.go.tmpl", "C15/transcript4.go.tmpl"], only="Len5", tier="thorough", label="fiat-shamir-long")],
+    level_text="Bounded proof: every call history of length <= 4 (quick) / <= 5 (thorough) over "
+               "{Bind, ComputeChallenge} x {two declared names, one undeclared} and caller-side mutations of bound / returned "
+               "slices is executed symbolically (byte values and hash free) and compared call by call with a sequential "
+               "reference model; all obligations unsat.",
+    level_note="Hash is an uninterpreted streaming function (sizes of SHA-256); shapes are enumerated by the harness, values are symbolic.",
+    bounds="2 declared names + 1 undeclared, 2-byte bound values, history length <= 4 quick (4680 histories) / <= 5 thorough (37448 histories)",
+    outside="more than 2 names, longer histories, MiMC as transcript hash (block-length errors)",
+    assumptions=["hash = uninterpreted streaming function"],
+)
